@@ -74,6 +74,10 @@ def ThisProp(m): return ("EThisProp", m)
 def Call(f, args, y=None): return ("ECall", f, list(args), y)
 def Method(root, chain, y=None): return ("EMethod", root, list(chain), y)   # chain [(name, [args])]
 def New(cls, args): return ("ENew", cls, list(args))
+# in-place number update 以 <root>之<m>（自增/自减：e） (root None = 其).  Rendered as the real member method call; emitted to the
+# model as the read-add-assign it equals when the property's Number is not aliased (the generator's counter discipline:
+# counters are only ever assigned fresh values and never passed bare to calls, mutators, 输出 or 得到) and e is pure.
+def Bump(root, m, sub, e): return ("EBump", root, m, bool(sub), e)
 
 def Decl(pairs): return ("SDecl", list(pairs))          # [(const, [names], expr)]
 def While(c, body): return ("SWhile", c, list(body))
@@ -194,6 +198,9 @@ class Renderer:
             if e[3]:
                 s += "，得到" + e[3]
             return s, 8
+        if k == "EBump":
+            recv = ThisProp(e[2]) if e[1] is None else Member(e[1], e[2])
+            return self._expr(Method(recv, [("自减" if e[3] else "自增", [e[4]])]))
         if k == "ENew":
             s = "（新建" + e[1]
             if e[2]:
@@ -363,6 +370,11 @@ class CoqEmitter:
         if k == "EMethod":
             ch = self.lst("(%d,%s)" % (self.n.id(m), self.lst(self.expr(a) for a in args)) for m, args in e[2])
             return "(EMethod %s %s %s)" % (self.expr(e[1]), ch, self.opt(e[3]))
+        if k == "EBump":
+            op = "-" if e[3] else "+"
+            if e[1] is None:
+                return self.expr(AssignThis(e[2], Arith(op, ThisProp(e[2]), e[4])))
+            return self.expr(AssignMember(e[1], e[2], Arith(op, Member(e[1], e[2]), e[4])))
         if k == "ENew":
             return "(ENew %d %s)" % (self.n.id(e[1]), self.lst(self.expr(a) for a in e[2]))
         raise ValueError(k)
